@@ -39,6 +39,15 @@ func (vc *VC) esFun(el types.Type) (string, *Sort, bool) {
 		vc.fact(Forall([]Term{a}, Eq(app(a, Zero), ConstArr(setSort(es), False)), []Term{app(a, Zero)}))
 		// membership of elements
 		vc.fact(Forall([]Term{a, n, i}, Imp(And(Le(Zero, i), Lt(i, n)), Select(app(a, n), Select(a, i))), []Term{app(a, n), Select(a, i)}))
+		// closure of the entry heap: the members of a set taken from an array as it
+		// was at entry are objects that existed at entry (or nil); same statement
+		// as the element-wise closure axiom of the entry heap, for the set view
+		if lay[0].Ref {
+			r := Term{"r!q", SInt}
+			x := Term{"x!q", SInt}
+			row0 := Select(vc.get(&State{}, vc.elemComps(el)[0]), r)
+			vc.fact(Forall([]Term{r, n, x}, Imp(Select(app(row0, n), x), And(Le(Zero, x), Lt(x, vc.A0))), []Term{Select(app(row0, n), x)}))
+		}
 	}
 	return fn, es, true
 }
